@@ -30,20 +30,20 @@ package format
 //@   loop 1 invariant -1 <= rangeindex && rangeindex < len(args) && (forall j in 0..rangeindex+1 :: isvalid(args[j]))
 //@   loop 1 decreases len(args) - rangeindex
 //@   loop 2 invariant s != nil && r.r != nil && len(s.Body) % 48 == 0 && isvalid(s.Type) && (forall j in 0..len(s.Args) :: isvalid(s.Args[j])) && issuffix(r.r.$rem, old(r.r.$rem)) && len(r.r.$rem) < len(old(r.r.$rem)) && old(r.err) == nil && fresh(s) && (rg(s.Body) == 0 || fresh(s.Body))
-//@   loop 2 invariant#size len(old(r.r.$rem)) - len(r.r.$rem) == len(lastret("ReadBytes",1,0)) + (len(s.Body) / 48) * 65           [C01 C03 C05 C07]
+//@   loop 2 invariant#size len(old(r.r.$rem)) - len(r.r.$rem) == len(lastret("ReadBytes",1,0)) + (len(s.Body) / 48) * 65           [C01 C03 C05 C07 C16]
 //@   loop 2 decreases len(r.r.$rem)
 //@   ensures#sticky old(r.err) != nil ==> s == nil && err == old(r.err) && r.r.$rem == old(r.r.$rem)     [C07 C13 C16]
 //@   ensures#stored r.err == err                                                                           [C07 C13 C16]
 //@   ensures#reject err != nil ==> s == nil                                                                [C07 C14 C16]
 //@   ensures#valid err == nil ==> s != nil && isvalid(s.Type) && (forall j in 0..len(s.Args) :: isvalid(s.Args[j]))   [C07 C14 C16]
 //@   ensures#progress err == nil ==> len(r.r.$rem) < len(old(r.r.$rem)) && issuffix(r.r.$rem, old(r.r.$rem))          [C07 C14 C16]
-//@   ensures#size err == nil ==> len(old(r.r.$rem)) - len(r.r.$rem) == len(lastret("ReadBytes",1,0)) + (len(s.Body) / 48) * 65 + (4 * (len(s.Body) % 48) + 2) / 3 + 1   [C01 C03 C05 C07]
+//@   ensures#size err == nil ==> len(old(r.r.$rem)) - len(r.r.$rem) == len(lastret("ReadBytes",1,0)) + (len(s.Body) / 48) * 65 + (4 * (len(s.Body) % 48) + 2) / 3 + 1   [C01 C03 C05 C07 C16]
 //@   ensures#marker err == nil ==> lastret("splitArgs",1,0) == "->" && len(lastret("splitArgs",1,1)) >= 1                          [C01 C03 C05 C07 C16]
 //@   ensures#fields err == nil ==> s.Type == lastret("splitArgs",1,1)[0] && len(s.Args) == len(lastret("splitArgs",1,1)) - 1 && (forall j in 0..len(s.Args) :: s.Args[j] == lastret("splitArgs",1,1)[j + 1])   [C01 C03 C05 C07 C16]
 //@   ensures#argsnonnil err == nil ==> !isnil(s.Args)                                                              [C16]
 //@   ensures#suffix issuffix(r.r.$rem, old(r.r.$rem))
-//@   ensures#wrapopen lasterr("ReadBytes",1) != nil ==> err != nil && wraps(err, lasterr("ReadBytes",1))        [C13 C14]
-//@   ensures#wrapbody lasterr("ReadBytes",2) != nil ==> err != nil && wraps(err, lasterr("ReadBytes",2))        [C13 C14]
+//@   ensures#wrapopen lasterr("ReadBytes",1) != nil ==> err != nil && wraps(err, lasterr("ReadBytes",1))        [C13 C14 C16]
+//@   ensures#wrapbody lasterr("ReadBytes",2) != nil ==> err != nil && wraps(err, lasterr("ReadBytes",2))        [C13 C14 C16]
 //@   fresh s when err == nil
 //@   modifies r.err, r.r.$rem, r.r.$bufd, r.r.$under.$rem
 
